@@ -1317,21 +1317,20 @@ def config_scope(name_or_scope):
     The resulting config scope (a list of all active scope names, ordered from
     outermost to innermost).
   """
+  valid_value = True
+  if isinstance(name_or_scope, list):
+    new_scope = name_or_scope
+  elif name_or_scope and isinstance(name_or_scope, str):
+    new_scope = current_scope()  # Returns a copy.
+    new_scope.extend(name_or_scope.split('/'))
+  else:
+    valid_value = name_or_scope in (None, '')
+    new_scope = []
+
+  # Append new_scope first. It will be popped in the finally block if an
+  # exception is raised below.
+  _SCOPE_MANAGER.enter_scope(new_scope)
   try:
-    valid_value = True
-    if isinstance(name_or_scope, list):
-      new_scope = name_or_scope
-    elif name_or_scope and isinstance(name_or_scope, str):
-      new_scope = current_scope()  # Returns a copy.
-      new_scope.extend(name_or_scope.split('/'))
-    else:
-      valid_value = name_or_scope in (None, '')
-      new_scope = []
-
-    # Append new_scope first. It will be popped in the finally block if an
-    # exception is raised below.
-    _SCOPE_MANAGER.enter_scope(new_scope)
-
     scopes_are_valid = map(config_parser.MODULE_RE.match, new_scope)
     if not valid_value or not all(scopes_are_valid):
       err_str = 'Invalid value for `name_or_scope`: {}.'
